@@ -13,9 +13,10 @@ import os
 
 from core import Check, hx, VERIF
 import secpworker
+from props import c08_pycurve
 
 PROP = "C08"
-MODS = ["EmbitModel.Props.C08", "EmbitModel.Props.C08X"]
+MODS = ["EmbitModel.Props.C08", "EmbitModel.Props.C08X", "EmbitModel.Props.C08Y"]
 
 N = 0xFFFFFFFFFFFFFFFFFFFFFFFFFFFFFFFEBAAEDCE6AF48A03BBFD25E8CD0364141
 P = 2**256 - 2**32 - 977
@@ -463,6 +464,9 @@ def explore(c, scale):
         gen_schnorr(x, 8 * scale)
         gen_recoverable(x, 6 * scale)
         c.flush()
+        # key.py's own field / curve arithmetic against its Lean model (Props/C08Y.lean)
+        from embit.util import key as _key
+        c08_pycurve.run_block(c, _key, min(scale, 40))
         c.extra["worker_crashes"] = c.extra.get("worker_crashes", 0) + x.w.crashes
         c.extra["worker_calls"] = c.extra.get("worker_calls", 0) + x.w.calls
     finally:
